@@ -186,6 +186,21 @@ CLAIMS = {
         technique="static analysis: import/name confinement scan, bit-width abstract interpretation, abstract evaluation with scripted generators/callbacks (ast)",
         ref="DESIGN.md §3 C19",
     ),
+    "C18": dict(
+        text=(
+            "Decides C18 in two layers: (SEG-G, all board sizes) guard facts at each update site of candidates() entail the "
+            "post-update bounds by linear entailment: merge needs num_blocks > min_num_blocks and len(i)+len(j) <= max_block_size, "
+            "split needs num_blocks < max_num_blocks and both halves >= min_block_size, each of the four move forms needs donor "
+            "> min, receiver < max, the connectivity test applied to the donor without exactly the moved cell, and the cell added "
+            "is the cell removed; (SEG-E) abstract evaluation on 9 board/bound configurations x 3 draw scripts: from initial(), "
+            "all proposed updates are applied breadth-first over the reachable values (state budget): every value is a partition "
+            "of the board into orthogonally connected blocks within all bounds, and neither candidates() nor copy_with_update "
+            "modifies the value it was applied to; (RNG-1) segmentation.py uses no ambient randomness."
+        ),
+        note="Trusted: abstract evaluator, guard walker and Fourier-Motzkin prover. Boards up to 3x3 and three draw scripts stand for all boards/seeds in SEG-E; allow_unmet_constraints_first is the caller's choice and not evaluated.",
+        technique="static analysis: guard-fact linear entailment at update sites + bounded abstract evaluation of update histories (ast)",
+        ref="DESIGN.md §3 C18",
+    ),
 }
 
 NOT_APPLICABLE = {
